@@ -35,6 +35,7 @@ def run(chk, F):
     chk.guard("overlay-does-not-rebind", "data", lambda: datafiles.overlay_rebinding(chk))
     chk.guard("declared-base-units", "data", lambda: datafiles.declared_base_units(chk))
     chk.guard("unit-lines-are-units", "data", lambda: datafiles.substances_in_unit_lines(chk))
+    chk.guard("compat-symbols", "data", lambda: datafiles.compat_symbols(chk))
     chk.guard("quantities-injective", "data", lambda: datafiles.quantity_injective(chk))
     chk.guard("docs-and-categories-belong", "data", lambda: datafiles.docs_belong(chk))
     chk.guard("hardwired-names-exist", "data", lambda: datafiles.hardwired_names(chk, F))
